@@ -2,6 +2,7 @@
 # usage: try_mut.sh <ID> [check ids...]  — applies each /tmp/wt/<ID>/_mut/m*/patch.diff to /repo, runs the check(s), undoes it
 ID=$1; shift; CHECKS=${@:-$ID}
 cd /verif
+trap "git -C /repo checkout -- . 2>/dev/null" EXIT PIPE INT TERM
 for d in /tmp/wt/$ID/_mut/m*; do
   m=$(basename $d)
   if git -C /repo apply $d/patch.diff 2>/dev/null; then
